@@ -132,7 +132,7 @@ def call_builtin(E, st, name, args, kwargs, node=None):
         if a.kind.tag == "fn" and a.t[0] == "takewhile_ne":
             src, stop = a.t[1], a.t[2]
             seq = E.list_seq(st, src) if src.kind.tag == "list" else src.t
-            s2, v = takewhile_ne(E, st, seq, stop, src.kind[1])
+            s2, v = takewhile_ne(E, st, seq, stop, src.kind[1], a.t[3])
             s3, lv = E.new_list(s2, src.kind[1], v)
             return ok(s3, lv)
         if a.kind.tag == "fn" and a.t[0] == "reversed":
@@ -423,15 +423,20 @@ def _next(E, st, args):
     return res
 
 
-def takewhile_ne(E, st, seq, stop, ek):
-    """list(itertools.takewhile(lambda a: a != stop, seq)) -- assumed contract of takewhile:
-    the longest prefix none of whose elements equals `stop`."""
+def takewhile_ne(E, st, seq, stop, ek, eq=False):
+    """list(itertools.takewhile(lambda a: a != stop, seq)) (or `== stop`) -- assumed contract of takewhile:
+    the longest prefix all of whose elements satisfy the predicate."""
     E.trusted.add("assumed contract: itertools.takewhile (longest prefix satisfying the predicate)")
     S = z3.SeqSort(sort_of(ek))
     r = z3.Const(fresh_name("takewhile"), S)
     n = z3.Length(r)
-    ax = z3.And(z3.PrefixOf(r, seq), z3.Not(z3.Contains(r, z3.Unit(stop.t))),
-                z3.Or(n == z3.Length(seq), seq[n] == stop.t))
+    if eq:
+        i = z3.Int(fresh_name("i"))
+        ax = z3.And(z3.PrefixOf(r, seq), z3.ForAll([i], z3.Implies(z3.And(i >= 0, i < n), r[i] == stop.t)),
+                    z3.Or(n == z3.Length(seq), seq[n] != stop.t))
+    else:
+        ax = z3.And(z3.PrefixOf(r, seq), z3.Not(z3.Contains(r, z3.Unit(stop.t))),
+                    z3.Or(n == z3.Length(seq), seq[n] == stop.t))
     return st.assume(ax), r
 
 
@@ -736,10 +741,10 @@ def call_ext(E, st, mod, name, args, kwargs, node=None):
         if f.kind.tag == "fn" and f.t[0] == "lambda":
             lam = f.t[1]
             b = lam.body
-            if (isinstance(b, ast.Compare) and len(b.ops) == 1 and isinstance(b.ops[0], ast.NotEq)
+            if (isinstance(b, ast.Compare) and len(b.ops) == 1 and isinstance(b.ops[0], (ast.NotEq, ast.Eq))
                     and isinstance(b.left, ast.Name) and b.left.id == lam.args.args[0].arg
                     and isinstance(b.comparators[0], ast.Constant) and isinstance(b.comparators[0].value, str)):
-                return ok(st, V(FN, ("takewhile_ne", src, vstr(b.comparators[0].value))))
+                return ok(st, V(FN, ("takewhile_ne", src, vstr(b.comparators[0].value), isinstance(b.ops[0], ast.Eq))))
         raise Unsupported("takewhile with this predicate")
     if full == "re.match":
         pat = _const_str(args[0].t) if args[0].kind.tag == "str" else None
